@@ -201,7 +201,9 @@ def run(step, repo, tier='quick', seed=0):
                 res['tool_errors'].append('harness %s ended with %s but no failed check was reported (solver killed / crashed / out of memory?)' % (m['name'], r['result']))
                 continue
             ok = False
-            if m.get('expect', 'pass') == 'pass':
+            if m.get('contract'):
+                ok = r['result'] == 'SUCCESSFUL' and not r['failed']
+            elif m.get('expect', 'pass') == 'pass':
                 ok = r['result'] == 'SUCCESSFUL' and not r['failed'] and r['covers'] is not None and r['covers'][0] == r['covers'][1] and r['covers'][1] > 0
                 if r['result'] == 'SUCCESSFUL' and not ok:
                     res['tool_errors'].append('harness %s is vacuous: cover properties %s' % (m['name'], r['covers']))
